@@ -58,6 +58,15 @@ def c01_suites(tier, seed):
         s.append(("enum-40", hists_of(jgen.gen_range_deletes(40, prefix="e40"))))
         s.append(("enum-40-buckets", hists_of(jgen.gen_range_deletes(40, every_bucket=4, prefix="eb40"))))
         s.append(("enum-40-reinsert", hists_of(jgen.gen_range_deletes(40, prefix="er40", reinsert=True))))
+    # collapse onto never-loaded pages below which a nested bucket is dirty: 2- and 3-level trees
+    s.append(("keep-window-12", hists_of(jgen.gen_keep_window(12, every_bucket=3, prefix="kw12"))))
+    s.append(("keep-window-5", hists_of(jgen.gen_keep_window(5, klen=8, vlen=300, every_bucket=2, prefix="kw5"))))
+    ws = [(a, b) for a in range(40) for b in range(a + 1, min(40, a + 8) + 1)]
+    if q:
+        import random
+        random.Random(seed + 5).shuffle(ws)
+        ws = ws[:60]
+    s.append(("keep-window-40", hists_of(jgen.gen_keep_window(40, every_bucket=4, prefix="kw40", windows=ws))))
     return s
 
 
@@ -95,6 +104,12 @@ def c05_suites(tier, seed):
     s.append(("enum-40-buckets", hists_of(jgen.gen_range_deletes(40, every_bucket=4, prefix="fb40", ranges=rs[:60] if q else None))))
     s.append(("enum-40", hists_of(jgen.gen_range_deletes(40, prefix="f40", ranges=rs[60:260] if q else None))))
     s.append(("enum-2leaf", hists_of(jgen.gen_range_deletes(5, klen=8, vlen=300, prefix="f5"))))
+    s.append(("keep-window-12", hists_of(jgen.gen_keep_window(12, every_bucket=3, prefix="fw12"))))
+    ws = [(a, b) for a in range(40) for b in range(a + 1, min(40, a + 8) + 1)]
+    if q:
+        random.Random(seed + 6).shuffle(ws)
+        ws = ws[:60]
+    s.append(("keep-window-40", hists_of(jgen.gen_keep_window(40, every_bucket=4, prefix="fw40", windows=ws))))
     return s
 
 
@@ -199,6 +214,9 @@ def hist_runner(prop, tier, seed, scratch, spec):
         "input_op_histogram": hist,
         "history_length_quartiles": quartiles(sizes),
         "impl_outcome_histogram": {k: v for k, v in stats.items() if "/" in k},
+        "layer_c": {"buckets_whose_committed_shape_was_predicted_by_the_model": stats.get("layerc_buckets_compared", 0),
+                    "rebalance_steps_replayed": stats.get("layerc_rebalance_steps_replayed", 0),
+                    "invariants_evaluated_on_real_trees": "Sep (wfsb), tightness (tightB / tightMB after the rebalance replay), uniform depth, no empty branch"},
     }
     return {"violations": [(p_, d, "") for p_, d in reports], "coverage": cov, "explored": len(results), "known": []}
 
@@ -843,15 +861,21 @@ def conc_batches(prop, tier, seed):
     else:
         b = [("rmw", 2, 1, 2, "bounded", [1, 400, seed]), ("rmw", 2, 1, 2, "bounded", [2, 1500 if q else 30000, seed]),
              ("rmw", 2, 2, 3, "bounded", [1, 500, seed]), ("rmw", 2, 1, 3, "random", [300 if q else 20000, seed]),
-             ("grow", 2, 1, 2, "bounded", [1, 120 if q else 600, seed]), ("grow", 2, 2, 2, "random", [40 if q else 600, seed])]
+             ("grow", 2, 1, 2, "bounded", [1, 120 if q else 600, seed]), ("grow", 2, 2, 2, "random", [40 if q else 600, seed]),
+             # eager: a thread asking for the writer lock may be let go while the lock is held (it blocks in the lock call)
+             ("rmw", 2, 1, 2, "bounded-eager", [1, 300, seed]), ("rmw", 2, 1, 3, "random-eager", [150 if q else 5000, seed + 3])]
     return b
 
 
 def run_conc_batch(scratch, tag, prog, commits, readers, writers, mode, margs):
     out = scratch.path("conc-%s.out" % tag)
     db = scratch.db("conc-%s.db" % tag)
+    env = None
+    if mode.endswith("-eager"):
+        mode = mode[:-len("-eager")]
+        env = dict(vlib.ENV, JH_CONC_EAGER="1")
     cmd = [vlib.JHARNESS, "conc", prog, out, db, str(commits), str(readers), str(writers), mode] + [str(x) for x in margs]
-    rc, o, e, dt = vlib.sh(cmd, timeout=400)
+    rc, o, e, dt = vlib.sh(cmd, timeout=400, env=env)
     rc2, o2, e2, dt2 = vlib.sh([vlib.JMODEL, "conc", out], timeout=600)
     bad, nruns = [], 0
     for l in o2.split("\n"):
@@ -876,7 +900,9 @@ def conc_runner(prop, tier, seed, scratch, spec):
     corpus = []
     for p_ in sorted(glob.glob(os.path.join(vlib.ROOT, "corpus", prop, "*.sched"))):
         f = open(p_).read().split()
-        corpus.append((f[0], int(f[1]), int(f[2]), int(f[3]), "one", [f[4]] + f[5:6]))
+        eager = "eager" in f[5:]
+        f = [x for x in f if x != "eager"]
+        corpus.append((f[0], int(f[1]), int(f[2]), int(f[3]), "one-eager" if eager else "one", [f[4]] + f[5:6]))
     work = [("c%d" % i, ) + b for i, b in enumerate(corpus)] + [("b%d" % i, ) + b for i, b in enumerate(batches)]
     total, bad_all = 0, []
     per_batch = []
@@ -897,7 +923,7 @@ def conc_runner(prop, tier, seed, scratch, spec):
         os.makedirs(os.path.join(vlib.WORK, "replays"), exist_ok=True)
         pth = os.path.join(vlib.WORK, "replays", "%s-%s-%s.sched" % (prop, g("program"), re.sub(r"[^0-9a-z]", "_", (g("preempt") + "_" + g("random"))[:40])))
         with open(pth, "w") as f:
-            f.write("%s %s %s %s %s %s\n" % (g("program"), g("commits"), g("readers"), g("writers"), g("preempt"), g("random") if g("random") != "-" else ""))
+            f.write("%s %s %s %s %s %s%s\n" % (g("program"), g("commits"), g("readers"), g("writers"), g("preempt"), g("random") if g("random") != "-" else "", " eager" if g("eager") == "1" else ""))
             f.write("# %s\n" % why)
         violations.append((pth, why[:300] + " [" + hdr[:160] + "]", ""))
     cov = {
@@ -915,8 +941,10 @@ def conc_runner(prop, tier, seed, scratch, spec):
 
 def conc_replay(prop, replay, scratch):
     f = [l for l in open(replay) if not l.startswith("#")][0].split()
+    eager = "eager" in f[5:]
+    f = [x for x in f if x != "eager"]
     margs = [f[4]] + f[5:6]
-    n, bad = run_conc_batch(scratch, "replay", f[0], int(f[1]), int(f[2]), int(f[3]), "one", margs)
+    n, bad = run_conc_batch(scratch, "replay", f[0], int(f[1]), int(f[2]), int(f[3]), "one-eager" if eager else "one", margs)
     for b in bad:
         print("REPLAY " + b[:400])
     if bad:
